@@ -45,7 +45,7 @@ func TestReplayC01(t *testing.T) {
 // ---- C04
 
 func recC04() *vkit.Recorder {
-	r := vkit.Rec("C04", "exploration", "rapid-generated single-cycle scenarios biased to loaded shards and sizes around both limits; judged per in-sync shard: reported load + weights of newly listed targets < limits; plus 2-3 cycle histories on one coordinator instance in which target sizes change between cycles; non-trivial = a placement on a shard whose reported load is >= half a limit, or an oversize target present; distinct = scenario digest")
+	r := vkit.Rec("C04", "exploration", "rapid-generated single-cycle scenarios biased to loaded shards and sizes around both limits; judged per in-sync shard: reported load + weights of newly listed targets < limits; plus 2-3 cycle histories on one coordinator instance in which target sizes change between cycles; shards running an old configuration answer the load question twice per cycle (second answer possibly heavier) and are judged on the last answer; non-trivial = a placement on a shard whose reported load is >= half a limit, or an oversize target present; distinct = scenario digest")
 	r.Assume(cycAssume, "weight of a moved target = minimum over what reachable source shards report (sound, slightly weaker); series exactly equal to a limit is left unjudged (statement says 'exceeds')")
 	return r
 }
@@ -56,6 +56,7 @@ func biasC04() Bias {
 	b.PCopies = [4]int{45, 45, 8, 2}
 	b.PInTransfer = 10
 	b.MinShards = 1
+	b.PRecovering = 20
 	return b
 }
 
@@ -188,7 +189,7 @@ func TestReplayC07(t *testing.T) {
 // ---- C08
 
 func recC08() *vkit.Recorder {
-	r := vkit.Rec("C08", "exploration", "single-cycle scenarios over subsets of shards x health scripts (unready, either GET failing, push rejected / without effect / accepted, re-check failing) combined with pending work; (scripts can also fail the second status request of a cycle), plus 2-3 cycle histories in which a shard loses its configuration again; judged on the complete per-shard request log; non-trivial = >=1 shard not in sync and >=1 in-sync shard with pending work; distinct = scenario digest")
+	r := vkit.Rec("C08", "exploration", "single-cycle scenarios over subsets of shards x health scripts (unready, either GET failing, push rejected / without effect / accepted, re-check failing) combined with pending work; (scripts can also fail the second status request of a cycle), plus 2-3 cycle histories in which a shard loses its configuration again; 35% of the scenarios run through the real pkg/api client (failed requests in six on-the-wire shapes); unit TestC08Reload: real ConfigManager loaded from a file with refused and accepted reloads, then a real cycle pushing to a real sidecar; judged on the complete per-shard request log; non-trivial = >=1 shard not in sync and >=1 in-sync shard with pending work; distinct = scenario digest")
 	r.Assume(cycAssume)
 	return r
 }
